@@ -184,6 +184,16 @@ class IrToPythonCompiler:
                 self.emit("return value - base")
             self.emit("return value")
 
+        # Round to single precision (ir.f32 values):
+        self.emit("@staticmethod")
+        with self.func_def("to_f32(value):"):
+            self.emit("try:")
+            with self.indented():
+                self.emit('return struct.unpack("f", struct.pack("f", value))[0]')
+            self.emit("except OverflowError:")
+            with self.indented():
+                self.emit("return math.copysign(math.inf, value)")
+
         # More C like integer divide
         self.emit("@staticmethod")
         with self.func_def("idiv(x, y):"):
@@ -473,7 +483,9 @@ class IrToPythonCompiler:
             )
         elif ins.ty is ir.ptr:
             self.emit(f"{ins.name} = int(round({ins.src.name}))")
-        elif ins.ty in [ir.f32, ir.f64]:
+        elif ins.ty is ir.f32:
+            self.emit(f"{ins.name} = rt.to_f32(float({ins.src.name}))")
+        elif ins.ty is ir.f64:
             self.emit(f"{ins.name} = float({ins.src.name})")
         else:  # pragma: no cover
             raise NotImplementedError(str(ins))
@@ -505,6 +517,8 @@ class IrToPythonCompiler:
             bits = ins.ty.bits
             signed = ins.ty.signed
             self.emit(f"{ins.name} = rt.correct({ins.name}, {bits}, {signed})")
+        elif ins.ty is ir.f32:
+            self.emit(f"{ins.name} = rt.to_f32({ins.name})")
 
     def gen_load(self, ins):
         address = self.fetch_value(ins.address)
